@@ -190,6 +190,23 @@ func leveldbWrites(repo string) string {
 		fmt.Fprintf(&sb, "(%q, %s)", x.fn, leanBool(x.sync && x.lit))
 	}
 	sb.WriteString("]\n\n")
+	// WHAT is written: the first argument of every such call (the model flushes the batch's own record list, in order)
+	var args []string
+	for _, k := range keys {
+		fd := p.funcs[k]
+		ast.Inspect(fd.Body, func(x ast.Node) bool {
+			if c, ok := x.(*ast.CallExpr); ok {
+				if s, ok := c.Fun.(*ast.SelectorExpr); ok && s.Sel.Name == "Write" && len(c.Args) == 2 {
+					var b strings.Builder
+					_ = printer.Fprint(&b, p.fset, c.Args[0])
+					args = append(args, fmt.Sprintf("%q", k+": "+strings.Join(strings.Fields(b.String()), " ")))
+				}
+			}
+			return true
+		})
+	}
+	sb.WriteString("/-- what every goleveldb `Write` call of package leveldb writes: (function: first argument) -/\n")
+	sb.WriteString("def leveldbWriteArgs : List String := [" + strings.Join(args, ", ") + "]\n\n")
 	return sb.String()
 }
 
